@@ -1,0 +1,382 @@
+//! Verification hooks (cargo feature `verif`, off by default).
+//!
+//! Nothing in here changes what a program computes. With a monitor installed
+//! (thread local) every instruction that produced a value is reported together
+//! with the static type the checker computed for it, function entries are
+//! counted (fuel / depth), loop iterations are counted (fuel) and very large
+//! `[v; n]` arrays are refused. Exhausted budgets unwind with
+//! `std::panic::panic_any(Abort::..)`, which the harness maps to "inconclusive".
+use crate::{
+    function::Function,
+    instruction::{ExecResult, Instruction},
+    interpreter::Interpreter,
+    variable::{ReturnType, Type, Variable},
+};
+use std::cell::{Cell, RefCell};
+
+/// Why an execution was cut short by the harness budget.
+#[derive(Debug, Clone, Copy, PartialEq, Eq)]
+pub enum Abort {
+    Fuel,
+    Depth,
+    Length,
+}
+
+/// One observation handed to the monitor.
+pub enum Event<'a> {
+    /// instruction `kind` (source text `text`) with static type `static_type` produced `value`
+    Value {
+        kind: &'static str,
+        text: &'a str,
+        static_type: &'a Type,
+        value: &'a Variable,
+    },
+    /// `return_type()` of an executed instruction panicked
+    TypePanic { kind: &'static str, text: &'a str },
+    /// argument `value` was bound to a parameter declared as `param_type`
+    Arg {
+        function: &'a str,
+        param: &'a str,
+        param_type: &'a Type,
+        value: &'a Variable,
+    },
+    /// a function declared to return `declared` returned `value`
+    Return {
+        function: &'a str,
+        declared: &'a Type,
+        value: &'a Variable,
+    },
+}
+
+pub type Monitor = Box<dyn FnMut(Event<'_>)>;
+
+thread_local! {
+    static MONITOR: RefCell<Option<Monitor>> = const { RefCell::new(None) };
+    static ACTIVE: Cell<bool> = const { Cell::new(false) };
+    static BYPASS: Cell<bool> = const { Cell::new(false) };
+    static FN_BYPASS: Cell<bool> = const { Cell::new(false) };
+    static HELPER_SCOPE: Cell<u32> = const { Cell::new(0) };
+    // one entry per function frame: true = placeholder-typed helper closure
+    static FRAMES: RefCell<Vec<bool>> = const { RefCell::new(Vec::new()) };
+    static TEXT: RefCell<Vec<std::sync::Arc<str>>> = const { RefCell::new(Vec::new()) };
+    static FUEL: Cell<u64> = const { Cell::new(u64::MAX) };
+    static TICKS: Cell<u64> = const { Cell::new(0) };
+    static DEPTH: Cell<u32> = const { Cell::new(0) };
+    static MAX_DEPTH: Cell<u32> = const { Cell::new(u32::MAX) };
+    static MAX_LEN: Cell<usize> = const { Cell::new(usize::MAX) };
+}
+
+/// Installs (or removes) the monitor of the current thread.
+pub fn set_monitor(monitor: Option<Monitor>) {
+    ACTIVE.with(|a| a.set(monitor.is_some()));
+    MONITOR.with(|m| *m.borrow_mut() = monitor);
+}
+
+/// Sets the budgets of the current thread and resets all counters and frame state.
+pub fn set_budget(fuel: u64, max_depth: u32, max_len: usize) {
+    FUEL.with(|f| f.set(fuel));
+    TICKS.with(|t| t.set(0));
+    DEPTH.with(|d| d.set(0));
+    MAX_DEPTH.with(|d| d.set(max_depth));
+    MAX_LEN.with(|l| l.set(max_len));
+    BYPASS.with(|b| b.set(false));
+    FN_BYPASS.with(|b| b.set(false));
+    HELPER_SCOPE.with(|h| h.set(0));
+    FRAMES.with(|f| f.borrow_mut().clear());
+    TEXT.with(|t| t.borrow_mut().clear());
+}
+
+/// Loop iterations + function entries since the last `set_budget`.
+pub fn ticks() -> u64 {
+    TICKS.with(|t| t.get())
+}
+
+fn kind_of(instruction: &Instruction) -> &'static str {
+    match instruction {
+        Instruction::AnonymousFunction(_) => "AnonymousFunction",
+        Instruction::Array(_) => "Array",
+        Instruction::ArrayRepeat(_) => "ArrayRepeat",
+        Instruction::Block(_) => "Block",
+        Instruction::Break => "Break",
+        Instruction::Continue => "Continue",
+        Instruction::DestructTuple(_) => "DestructTuple",
+        Instruction::FieldAccess(_) => "FieldAccess",
+        Instruction::FunctionDeclaration(_) => "FunctionDeclaration",
+        Instruction::IfElse(_) => "IfElse",
+        Instruction::LocalVariable(..) => "LocalVariable",
+        Instruction::Loop(_) => "Loop",
+        Instruction::Match(_) => "Match",
+        Instruction::Mut(_) => "Mut",
+        Instruction::Reduce(_) => "Reduce",
+        Instruction::Set(_) => "Set",
+        Instruction::SetIfElse(_) => "SetIfElse",
+        Instruction::Slicing(_) => "Slicing",
+        Instruction::Struct(_) => "Struct",
+        Instruction::Tuple(_) => "Tuple",
+        Instruction::TupleAccess(_) => "TupleAccess",
+        Instruction::TypeFilter(_) => "TypeFilter",
+        Instruction::Variable(_) => "Variable",
+        Instruction::BinOperation(op) => bin_kind(op.op),
+        Instruction::UnaryOperation(op) => un_kind(op.op),
+    }
+}
+
+fn bin_kind(op: crate::BinOperator) -> &'static str {
+    use crate::BinOperator::*;
+    match op {
+        Add => "Bin:+",
+        Subtract => "Bin:-",
+        Multiply => "Bin:*",
+        Divide => "Bin:/",
+        Modulo => "Bin:%",
+        Pow => "Bin:**",
+        Equal => "Bin:==",
+        NotEqual => "Bin:!=",
+        Greater => "Bin:>",
+        GreaterOrEqual => "Bin:>=",
+        Lower => "Bin:<",
+        LowerOrEqual => "Bin:<=",
+        And => "Bin:&&",
+        Or => "Bin:||",
+        BitwiseAnd => "Bin:&",
+        BitwiseOr => "Bin:|",
+        Xor => "Bin:^",
+        LShift => "Bin:<<",
+        RShift => "Bin:>>",
+        Filter => "Bin:?",
+        Map => "Bin:@",
+        At => "Bin:[]",
+        FunctionCall => "Bin:call",
+        Assign => "Bin:=",
+        AssignAdd => "Bin:+=",
+        AssignSubtract => "Bin:-=",
+        AssignMultiply => "Bin:*=",
+        AssignDivide => "Bin:/=",
+        AssignModulo => "Bin:%=",
+        AssignLShift => "Bin:<<=",
+        AssignRShift => "Bin:>>=",
+        AssignBitwiseAnd => "Bin:&=",
+        AssignBitwiseOr => "Bin:|=",
+        AssignXor => "Bin:^=",
+        AssignPow => "Bin:**=",
+        Partition => "Bin:\\",
+    }
+}
+
+fn un_kind(op: crate::unary_operator::UnaryOperator) -> &'static str {
+    use crate::unary_operator::UnaryOperator::*;
+    match op {
+        All => "Un:$&&",
+        Any => "Un:$||",
+        BitAnd => "Un:$&",
+        BitOr => "Un:$|",
+        Sum => "Un:$+",
+        Product => "Un:$*",
+        Not => "Un:!",
+        UnaryMinus => "Un:-",
+        Return => "Un:return",
+        Indirection => "Un:*",
+        FunctionCall => "Un:call",
+        Collect => "Un:$]",
+        Iter => "Un:~",
+    }
+}
+
+fn judging() -> bool {
+    FRAMES.with(|f| !f.borrow().last().copied().unwrap_or(false))
+}
+
+fn emit(event: Event<'_>) {
+    // the monitor is taken out while it runs so that a monitor that (indirectly)
+    // executes code cannot re-enter itself
+    let Some(mut monitor) = MONITOR.with(|m| m.borrow_mut().take()) else {
+        return;
+    };
+    monitor(event);
+    MONITOR.with(|m| {
+        let mut slot = m.borrow_mut();
+        if slot.is_none() {
+            *slot = Some(monitor);
+        }
+    });
+}
+
+/// H1: called as the first statement of `Instruction::exec`.
+pub(crate) fn intercept(
+    instruction: &Instruction,
+    interpreter: &mut Interpreter,
+) -> Option<ExecResult> {
+    if !ACTIVE.with(|a| a.get()) {
+        return None;
+    }
+    if BYPASS.with(|b| b.replace(false)) {
+        return None;
+    }
+    BYPASS.with(|b| b.set(true));
+    let result = crate::instruction::Exec::exec(instruction, interpreter);
+    if let Ok(value) = &result
+        && judging()
+    {
+        let kind = kind_of(instruction);
+        let text = TEXT.with(|t| t.borrow().last().cloned());
+        let text = text.as_deref().unwrap_or("");
+        match std::panic::catch_unwind(std::panic::AssertUnwindSafe(|| {
+            instruction.return_type()
+        })) {
+            Ok(static_type) => emit(Event::Value {
+                kind,
+                text,
+                static_type: &static_type,
+                value,
+            }),
+            Err(_) => emit(Event::TypePanic { kind, text }),
+        }
+    }
+    Some(result)
+}
+
+pub(crate) struct TextGuard(bool);
+
+/// Records the source text of the instruction being executed (for reports).
+pub(crate) fn note_text(text: &std::sync::Arc<str>) -> TextGuard {
+    if !ACTIVE.with(|a| a.get()) {
+        return TextGuard(false);
+    }
+    TEXT.with(|t| t.borrow_mut().push(text.clone()));
+    TextGuard(true)
+}
+
+impl Drop for TextGuard {
+    fn drop(&mut self) {
+        if self.0 {
+            TEXT.with(|t| {
+                t.borrow_mut().pop();
+            });
+        }
+    }
+}
+
+/// H3 / H2: one unit of work.
+pub(crate) fn tick() {
+    let ticks = TICKS.with(|t| {
+        let v = t.get() + 1;
+        t.set(v);
+        v
+    });
+    if ticks > FUEL.with(|f| f.get()) {
+        std::panic::panic_any(Abort::Fuel);
+    }
+}
+
+pub(crate) struct FrameGuard;
+
+/// H2: called as the first statement of `Function::exec`: counts the frame (fuel, depth,
+/// helper state), runs the original body once and reports the value it yields.
+pub(crate) fn intercept_function(
+    function: &Function,
+    interpreter: &mut Interpreter,
+) -> Option<Result<Variable, crate::ExecError>> {
+    if FN_BYPASS.with(|b| b.replace(false)) {
+        return None;
+    }
+    let _frame = enter_function(function);
+    FN_BYPASS.with(|b| b.set(true));
+    let result = function.exec(interpreter);
+    if let Ok(value) = &result {
+        observe_return(function, value);
+    }
+    Some(result)
+}
+
+fn enter_function(function: &Function) -> FrameGuard {
+    tick();
+    let depth = DEPTH.with(|d| {
+        let v = d.get() + 1;
+        d.set(v);
+        v
+    });
+    let helper = function.helper || HELPER_SCOPE.with(|h| h.get()) > 0;
+    FRAMES.with(|f| f.borrow_mut().push(helper));
+    // the guard exists from here on, so the counters are restored while unwinding
+    let guard = FrameGuard;
+    if depth > MAX_DEPTH.with(|d| d.get()) {
+        std::panic::panic_any(Abort::Depth);
+    }
+    guard
+}
+
+impl Drop for FrameGuard {
+    fn drop(&mut self) {
+        DEPTH.with(|d| d.set(d.get().saturating_sub(1)));
+        FRAMES.with(|f| {
+            f.borrow_mut().pop();
+        });
+    }
+}
+
+fn function_name(function: &Function) -> String {
+    match &function.ident {
+        Some(ident) => format!("{ident}{function}"),
+        None => format!("{function}"),
+    }
+}
+
+/// H2: called by `Function::exec_with_args` before the arguments are bound.
+pub(crate) fn observe_args(function: &Function, args: &[Variable]) {
+    if !ACTIVE.with(|a| a.get()) {
+        return;
+    }
+    if function.helper || HELPER_SCOPE.with(|h| h.get()) > 0 {
+        return;
+    }
+    let name = function_name(function);
+    for (arg, param) in args.iter().zip(function.params.iter()) {
+        emit(Event::Arg {
+            function: &name,
+            param: &param.name,
+            param_type: &param.var_type,
+            value: arg,
+        });
+    }
+}
+
+fn observe_return(function: &Function, value: &Variable) {
+    if !ACTIVE.with(|a| a.get()) {
+        return;
+    }
+    if function.helper || HELPER_SCOPE.with(|h| h.get()) > 0 {
+        return;
+    }
+    let name = function_name(function);
+    emit(Event::Return {
+        function: &name,
+        declared: &function.return_type,
+        value,
+    });
+}
+
+pub(crate) struct HelperGuard;
+
+/// H4: the placeholder-typed helper closures behind `@`, `?` and `~` are built and run
+/// inside this scope; functions created in it are marked as helpers.
+pub(crate) fn helper_scope() -> HelperGuard {
+    HELPER_SCOPE.with(|h| h.set(h.get() + 1));
+    HelperGuard
+}
+
+impl Drop for HelperGuard {
+    fn drop(&mut self) {
+        HELPER_SCOPE.with(|h| h.set(h.get().saturating_sub(1)));
+    }
+}
+
+pub(crate) fn in_helper_scope() -> bool {
+    HELPER_SCOPE.with(|h| h.get()) > 0
+}
+
+/// H5: refuses absurdly long `[v; n]` arrays.
+pub(crate) fn check_len(len: usize) {
+    if len > MAX_LEN.with(|l| l.get()) {
+        std::panic::panic_any(Abort::Length);
+    }
+}
